@@ -135,6 +135,14 @@ CHECKS["C17"] = ("E3-puppet",
   "with exactly L transmissions of EOF/Finished (resp. L NAK rounds) before it, and the configured action must follow.",
   "Tolerance 3 tau + 6 ms. With Ignore only the absence of cancel/abandon/suspend/termination is required.",
   "DESIGN.md §5 C17")
+CHECKS["C13"] = ("E1-pure + E2-sim",
+  "model-based testing: bounded-exhaustive and random request histories against an in-memory filesystem model; proptest transactions carrying request lists on the real daemons under faults",
+  "Core: every sequence of <= 2 requests (9 actions x 7 x 7 names over {f1,f2,d1,d1/f,d2,nx,nx/f}) from 4 initial states (778k histories, exhaustive; thorough adds length 3) and random sequences up to 30: "
+  "after every request the returned status and the full recursive snapshot of the directory equal the model (failed requests change nothing). Transactions: Puts with 0..4 requests, with/without a file, both modes, "
+  "an optional fault and an optional forced checksum failure: the receiver's filestore must equal the model with the requests applied once, in order, iff the delivery succeeded; the response list (NotPerformed after "
+  "the first failure) must be identical in the receiver's Finished indication, every Finished PDU and the sender's Finished indication.",
+  "The model encodes the statuses the repository's tests pin. Names stay inside the root (C12's subject).",
+  "DESIGN.md §5 C13")
 NOT_YET = {}
 
 def main():
